@@ -37,6 +37,8 @@ type MemStore struct {
 	closed  bool
 	afterCl int // calls entered after Close returned
 
+	// FaultErr, if set, supplies the error an injected fault returns (default ErrInjected wrapped).
+	FaultErr func(kind string, n int) error
 	// OnCall, if set, runs (outside the lock) at the start of every operation.
 	OnCall func(kind string, n int, id desync.ChunkID)
 	// Gate, if set, blocks every operation until it returns (C12 schedule control).
@@ -161,8 +163,11 @@ func (s *MemStore) enter(kind string, id desync.ChunkID) (n int, fail bool) {
 }
 
 func (s *MemStore) GetChunk(id desync.ChunkID) (*desync.Chunk, error) {
-	_, fail := s.enter("get", id)
+	n, fail := s.enter("get", id)
 	if fail {
+		if s.FaultErr != nil {
+			return nil, s.FaultErr("get", n)
+		}
 		return nil, fmt.Errorf("%s get: %w", s.Name, ErrInjected)
 	}
 	s.mu.Lock()
